@@ -314,6 +314,10 @@ class WSStream:
     async def _handle_events(self) -> None:
         for event in self.connection.events():
             if isinstance(event, Message):
+                if self.connection.state == ConnectionState.LOCAL_CLOSING:
+                    # A close has been sent (e.g. as a message was too
+                    # large), nothing after it is delivered to the app.
+                    continue
                 try:
                     self.buffer.extend(event)
                 except FrameTooLargeError:
